@@ -109,6 +109,25 @@ class LogReader(asyncio.StreamReader):
         return await self._wrap("read", super().read(n))
 
 
+class _FakeSocket:
+    """accepts the socket options a client may set (they are logged, nothing else happens)"""
+
+    def __init__(self, sess, conn):
+        self._sess, self._conn = sess, conn
+
+    def setsockopt(self, level, opt, value):
+        self._sess.ev("SockOpt", conn=self._conn, level=int(level), opt=int(opt), value=value if isinstance(value, int) else 0)
+
+    def getsockopt(self, level, opt, *a):
+        return 0
+
+    def fileno(self):
+        return -1
+
+    def getpeername(self):
+        return ("gw", 1)
+
+
 class FakeWriter:
     def __init__(self, sess: "Session", conn: int, reader: LogReader):
         self._sess, self._conn, self._reader = sess, conn, reader
@@ -168,6 +187,9 @@ class FakeWriter:
         return None
 
     def get_extra_info(self, name, default=None):
+        # a TCP transport has a socket (the clients set keep-alive options on it); anything else is unknown
+        if name == "socket":
+            return _FakeSocket(self._sess, self._conn)
         return default
 
 
